@@ -352,10 +352,15 @@ func (p *Peer) pushLogToReplicators(lg event.Update) {
 
 	p.server.mu.Lock()
 	reps, exists := p.server.replicators[lg.CollectionID]
+	// copy the peer IDs while holding the lock, the map can be updated concurrently
+	peerIDs := make([]peer.ID, 0, len(reps))
+	for pid := range reps {
+		peerIDs = append(peerIDs, pid)
+	}
 	p.server.mu.Unlock()
 
 	if exists {
-		for pid := range reps {
+		for _, pid := range peerIDs {
 			go func(peerID peer.ID) {
 				if err := p.server.pushLog(lg, peerID); err != nil {
 					log.ErrorE(
